@@ -352,21 +352,25 @@ Proof.
     In e (filter (fun e => match fst e with RTag _ => true | _ => false end) ix ++
           map (fun n => (RDig n, n))
             (dedup (tagged_nodes ix) ++ kept ++
-             (if kl then filter (fun n => memb n g) (digested ix) else []))) ->
+             (if kl then filter (gexists succ manifest bl (tagged_nodes ix) g) (digested ix) else []))) ->
     (exists t, e = (RTag t, snd e) /\ In e ix) \/
-    (fst e = RDig (snd e) /\ (In (snd e) (tagged_nodes ix) \/ In (snd e) kept \/ In (snd e) g))).
+    (fst e = RDig (snd e) /\ (In (snd e) (tagged_nodes ix) \/ In (snd e) kept \/ In (snd e) g \/ ~ In (snd e) bl))).
   { intros e He. apply in_app_or in He as [He|He].
     - apply filter_In in He as [He Hm]. destruct e as [[t| |] n]; try discriminate. left. eauto.
     - apply in_map_iff in He as (n & <- & Hn). right. split; [reflexivity|]. cbn [fst snd].
       apply in_app_or in Hn as [Hn|Hn]; [left; exact (proj1 (dedup_In _ _) Hn)|].
       apply in_app_or in Hn as [Hn|Hn]; [right; now left|]. right. right.
-      destruct kl; [|destruct Hn]. apply filter_In in Hn as [_ Hn]. now apply memb_In. }
+      destruct kl; [|destruct Hn]. apply filter_In in Hn as [_ Hn]. unfold gexists in Hn.
+      apply orb_true_iff in Hn as [Hn|Hn]; [left; now apply memb_In|right].
+      apply andb_true_iff in Hn as [Hn _]. unfold leaf_absent in Hn. apply andb_true_iff in Hn as [Hn _].
+      apply negb_true_iff in Hn. now apply memb_false. }
   split; [apply (gi_closed _ _ I)|]. split; [|split].
-  - intros e He Hb. destruct (Hentry e He) as [(t & Ee & Hin)|(_ & [Ht|[Hk|Hg]])].
+  - intros e He Hb. destruct (Hentry e He) as [(t & Ee & Hin)|(_ & [Ht|[Hk|[Hg|Hnb]]])].
     + rewrite Ee in Hin. eapply (gi_roots _ _ I); eauto.
     + apply tagged_nodes_In in Ht as (t & Ht). eapply (gi_roots _ _ I); eauto.
     + now apply (gi_kept _ _ I).
     + assumption.
+    + contradiction.
   - intros x Hx. apply (gi_sound _ _ I) in Hx.
     induction Hx as [t n x Ht Hr|d r s x Hd Hc _ IHs Hms Hr].
     + exists (RTag t, n). split; [|exact Hr]. apply in_or_app. left. apply filter_In. split; [assumption|reflexivity].
@@ -377,18 +381,188 @@ Proof.
         destruct IHs as (e & He & Hre).
         assert (Hsg : In s g).
         { eapply closed_reach; [apply (gi_closed _ _ I)|exact Hre|].
-          destruct (Hentry e He) as [(t & Ee & Hin)|(_ & [Ht'|[Hk|Hg]])].
+          destruct (Hentry e He) as [(t & Ee & Hin)|(_ & [Ht'|[Hk|[Hg|Hnb]]])].
           - rewrite Ee in Hin. eapply (gi_roots _ _ I); eauto. eapply Reach_start; eauto.
           - apply tagged_nodes_In in Ht' as (t & Ht'). eapply (gi_roots _ _ I); eauto. eapply Reach_start; eauto.
           - now apply (gi_kept _ _ I).
-          - assumption. }
+          - assumption.
+          - exfalso. apply Hnb. eapply Reach_start; eauto. }
         destruct (Hfin r Hcand) as [Hk|Hno]; [|exfalso; apply Hno; eauto].
         exists (RDig r, r). split; [|exact Hr]. apply in_or_app. right. apply in_map_iff.
         exists r. split; [reflexivity|]. apply in_or_app. right. apply in_or_app. now left.
   - intros e He. destruct (Hentry e He) as [(t & Ee & _)|(Ee & _)]; rewrite Ee; reflexivity.
 Qed.
 
+(* everything later lemmas need about the rebuilt index *)
+Lemma gc_index_full (kl : bool) :
+  exists ix' g,
+    gc_index succ subject manifest cfg_fixed kl ords st = Some (ix', g) /\
+    (forall x, In x g <-> Live x) /\
+    (forall t n, In (RTag t, n) ix' <-> In (RTag t, n) ix) /\
+    (forall d r, In (RDig d, r) ix' ->
+       d = r /\ ((exists t, In (RTag t, r) ix) \/ (exists d', In (RDig d', r) ix))) /\
+    (forall d r s, In (RDig d, r) ix -> Chain bl r s -> Live s -> manifest s = true ->
+       In (RDig r, r) ix') /\
+    (forall t n, In (RTag t, n) ix -> In (RDig n, n) ix') /\
+    (forall t n, ~ In (RStale t, n) ix').
+Proof.
+  destruct (gc_index_spec kl) as (ix1 & g1 & E1 & HL & HT).
+  destruct (gc_passes_spec (S (length (candidates ix))) 0 _ [] GInv_init ltac:(simpl; lia))
+    as (g & kept & Hp & I & Hfin).
+  assert (E2 : gc_index succ subject manifest cfg_fixed kl ords st =
+    Some (filter (fun e => match fst e with RTag _ => true | _ => false end) ix ++
+          map (fun n => (RDig n, n))
+            (dedup (tagged_nodes ix) ++ kept ++
+             (if kl then filter (gexists succ manifest bl (tagged_nodes ix) g) (digested ix) else [])), g)).
+  { unfold gc_index. fold ix bl. change (clo succ manifest cfg_fixed bl) with (closure succ bl).
+    rewrite Hp. reflexivity. }
+  rewrite E2 in E1. injection E1 as <- <-.
+  eexists _, g. split; [exact E2|]. split; [exact HL|]. split; [exact HT|].
+  split; [|split; [|split]].
+  - intros d r H. apply in_app_or in H as [H|H].
+    + apply filter_In in H as [_ H]. discriminate.
+    + apply in_map_iff in H as (n & E & Hn). injection E as <- <-. split; [reflexivity|].
+      apply in_app_or in Hn as [Hn|Hn].
+      * left. apply (proj1 (dedup_In _ _)) in Hn. now apply tagged_nodes_In.
+      * apply in_app_or in Hn as [Hn|Hn].
+        -- right. apply (gi_cand _ _ I) in Hn. apply candidates_In in Hn. tauto.
+        -- right. destruct kl; [|destruct Hn]. apply filter_In in Hn as [Hn _].
+           unfold digested in Hn. apply in_flat_map in Hn as ([r' m] & He & Hm). simpl in Hm.
+           destruct r'; simpl in Hm; try contradiction. destruct Hm as [<-|[]]. eauto.
+  - intros d r s Hd Hc Hs Hm. apply in_or_app. right. apply in_map_iff. exists r.
+    split; [reflexivity|].
+    destruct (in_dec Nat.eq_dec r (tagged_nodes ix)) as [Ht|Ht].
+    + apply in_or_app. left. now apply dedup_In.
+    + apply in_or_app. right. apply in_or_app. left.
+      assert (Hcand : In r (candidates ix)) by (apply candidates_In; eauto).
+      destruct (Hfin r Hcand) as [Hk|Hno]; [assumption|]. exfalso. apply Hno. exists s.
+      split; [assumption|]. split; [now apply HL|assumption].
+  - intros t n Ht. apply in_or_app. right. apply in_map_iff. exists n. split; [reflexivity|].
+    apply in_or_app. left. apply dedup_In. apply tagged_nodes_In. eauto.
+  - intros t n H. apply in_app_or in H as [H|H].
+    + apply filter_In in H as [_ H]. discriminate.
+    + apply in_map_iff in H as (m & E & _). discriminate.
+Qed.
+
+(* which by-digest references the rebuilt index has when GC keeps those of live descriptors
+   (kl = true: the code as it is) *)
+Lemma gc_index_digs :
+  exists ix' g,
+    gc_index succ subject manifest cfg_fixed true ords st = Some (ix', g) /\
+    forall d r, In (RDig d, r) ix' <->
+      d = r /\ ((exists t, In (RTag t, r) ix) \/
+                ((exists d', In (RDig d', r) ix) /\
+                 (Live r \/ (~ In r bl /\ manifest r = false /\ exists p, Live p /\ In r (succ p))))).
+Proof.
+  destruct (gc_index_spec true) as (ix1 & g1 & E1 & HL & HT).
+  destruct (gc_passes_spec (S (length (candidates ix))) 0 _ [] GInv_init ltac:(simpl; lia))
+    as (g & kept & Hp & I & Hfin).
+  assert (E2 : gc_index succ subject manifest cfg_fixed true ords st =
+    Some (filter (fun e => match fst e with RTag _ => true | _ => false end) ix ++
+          map (fun n => (RDig n, n))
+            (dedup (tagged_nodes ix) ++ kept ++ filter (gexists succ manifest bl (tagged_nodes ix) g) (digested ix)), g)).
+  { unfold gc_index. fold ix bl. change (clo succ manifest cfg_fixed bl) with (closure succ bl).
+    rewrite Hp. reflexivity. }
+  rewrite E2 in E1. injection E1 as <- <-.
+  eexists _, g. split; [exact E2|]. intros d r.
+  assert (Hdig : forall n, In n (digested ix) <-> exists d', In (RDig d', n) ix).
+  { intro n. unfold digested. rewrite in_flat_map. split.
+    - intros ([r' m] & He & Hm). simpl in Hm. destruct r'; simpl in Hm; try contradiction.
+      destruct Hm as [<-|[]]. eauto.
+    - intros (d' & H). exists (RDig d', n). split; [assumption|now left]. }
+  split.
+  - intro H. apply in_app_or in H as [H|H].
+    + apply filter_In in H as [_ H]. discriminate.
+    + apply in_map_iff in H as (n & E & Hn). injection E as <- <-. split; [reflexivity|].
+      apply in_app_or in Hn as [Hn|Hn].
+      * left. apply (proj1 (dedup_In _ _)) in Hn. now apply tagged_nodes_In.
+      * apply in_app_or in Hn as [Hn|Hn].
+        -- right. split; [|left; apply HL; now apply (gi_kept _ _ I)].
+           apply (gi_cand _ _ I) in Hn. apply candidates_In in Hn. tauto.
+        -- apply filter_In in Hn as [Hn Hg]. unfold gexists in Hg. apply orb_true_iff in Hg as [Hg|Hg].
+           ++ right. split; [now apply Hdig|]. left. apply HL. now apply memb_In.
+           ++ apply andb_true_iff in Hg as [Hla Hg]. unfold leaf_absent in Hla.
+              apply andb_true_iff in Hla as [Hnb Hnm]. apply negb_true_iff in Hnb, Hnm. apply memb_false in Hnb.
+              apply orb_true_iff in Hg as [Hg|Hg].
+              ** left. apply memb_In in Hg. now apply tagged_nodes_In.
+              ** right. split; [now apply Hdig|]. right. repeat split; try assumption.
+                 apply existsb_exists in Hg as (p & Hpg & Hs). exists p. split; [now apply HL|now apply memb_In].
+  - intros [-> [(t & Ht)|[Hd [HLr|(Hnb & Hnm & p & Hpl & Hs)]]]]; apply in_or_app; right; apply in_map_iff; exists r; (split; [reflexivity|]).
+    + apply in_or_app. left. apply dedup_In. apply tagged_nodes_In. eauto.
+    + apply in_or_app. right. apply in_or_app. right. apply filter_In.
+      split; [now apply Hdig|]. unfold gexists. apply orb_true_iff. left. apply memb_In. now apply HL.
+    + apply in_or_app. right. apply in_or_app. right. apply filter_In.
+      split; [now apply Hdig|]. unfold gexists, leaf_absent. apply orb_true_iff. right.
+      apply memb_false in Hnb. rewrite Hnb, Hnm. cbn [negb andb]. apply orb_true_iff. right.
+      apply existsb_exists. exists p. split; [now apply HL|now apply memb_In].
+Qed.
+
 End GC.
+
+(* The live set depends only on the tags, on which descriptors have a by-digest reference and
+   on the stored content that is live: a state whose references were rebuilt by gcIndex and
+   whose storage lost only garbage has the same live set. *)
+Lemma Reach_mono bl bl' n x : (forall y, In y bl -> In y bl') -> Reach bl n x -> Reach bl' n x.
+Proof.
+  intros Hs H. induction H as [n Hn|n s x Hn Hsn _ IH]; [apply R_refl; auto|eapply R_step; eauto].
+Qed.
+
+Lemma Reach_within bl bl' n x :
+  Reach bl n x -> (forall y, Reach bl n y -> In y bl') -> Reach bl' n x.
+Proof.
+  intro H. induction H as [n Hn|n s x Hn Hs Hr IH]; intro Hy.
+  - apply R_refl. apply Hy. now apply R_refl.
+  - eapply R_step; [apply Hy; now apply R_refl|exact Hs|]. apply IH. intros y Hry. apply Hy.
+    eapply R_step; eauto.
+Qed.
+
+Lemma Chain_mono bl bl' r s : (forall y, In y bl -> In y bl') -> Chain bl r s -> Chain bl' r s.
+Proof.
+  intros Hs H. induction H as [r s Hr E|r m s Hr E _ IH]; [apply C_one; auto|eapply C_step; eauto].
+Qed.
+
+Lemma Live_reach st n x : Live st n -> Reach (blobs st) n x -> Live st x.
+Proof.
+  intros HL Hr. destruct HL as [t r n Ht Hrn|d r s n Hd Hc Hs Hm Hrn].
+  - eapply L_tag; eauto. clear -Hrn Hr. induction Hrn; [assumption|eapply R_step; eauto].
+  - eapply L_ref; eauto. clear -Hrn Hr. induction Hrn; [assumption|eapply R_step; eauto].
+Qed.
+
+Lemma Chain_within st r s :
+  Chain (blobs st) r s -> Live st r -> forall bl', (forall y, Live st y -> In y bl') -> Chain bl' r s.
+Proof.
+  intros H. induction H as [r s Hr E|r m s Hr E Hc IH]; intros HL bl' Hb.
+  - apply C_one; auto.
+  - eapply C_step; eauto. apply IH; [|assumption].
+    eapply Live_reach; [exact HL|]. eapply (R_step _ r m m); [exact Hr|apply subj_succ; exact E|].
+    apply R_refl. inversion Hc; assumption.
+Qed.
+
+Lemma Live_rebuilt st st' :
+  (forall t n, In (RTag t, n) (idx st') <-> In (RTag t, n) (idx st)) ->
+  (forall d r, In (RDig d, r) (idx st') ->
+     (exists t, In (RTag t, r) (idx st)) \/ (exists d', In (RDig d', r) (idx st))) ->
+  (forall d r s, In (RDig d, r) (idx st) -> Chain (blobs st) r s -> Live st s -> manifest s = true ->
+     In (RDig r, r) (idx st')) ->
+  (forall x, In x (blobs st') -> In x (blobs st)) ->
+  (forall x, Live st x -> In x (blobs st')) ->
+  forall x, Live st' x <-> Live st x.
+Proof.
+  intros HT HD1 HD2 Hsub Hkeep x. split.
+  - induction 1 as [t n x Ht Hr|d r s x Hd Hc _ IHs Hm Hr].
+    + eapply L_tag; [apply HT; exact Ht|]. eapply Reach_mono; eauto.
+    + apply (Reach_mono _ _ _ _ Hsub) in Hr. destruct (HD1 d r Hd) as [(t & Ht)|(d' & Hd')].
+      * eapply L_tag; eauto.
+      * eapply L_ref; eauto. eapply Chain_mono; eauto.
+  - induction 1 as [t n x Ht Hr|d r s x Hd Hc Hs IHs Hm Hr].
+    + eapply L_tag; [apply HT; exact Ht|]. apply (Reach_within _ _ _ _ Hr).
+      intros y Hy. apply Hkeep. eapply L_tag; eauto.
+    + assert (HLr : Live st r).
+      { eapply L_ref; eauto. apply R_refl. eapply Reach_start; eauto. }
+      eapply (L_ref st' r r s x); [eapply HD2; eauto| |exact IHs|exact Hm|].
+      * eapply Chain_within; eauto.
+      * apply (Reach_within _ _ _ _ Hr). intros y Hy. apply Hkeep. eapply Live_reach; eauto.
+Qed.
 
 (* GC of the repaired code: terminates with Ok for every state and every order,
    the rebuilt graph and the surviving blobs are exactly the live set, tags are
@@ -417,6 +591,72 @@ Proof.
   - apply filter_In in H. tauto.
   - apply filter_In in H as [_ H]. unfold sweep_stray in H. now apply negb_true_iff in H.
   - intros [H1 H2]. apply filter_In. split; [assumption|]. unfold sweep_stray. now rewrite H2.
+Qed.
+
+(* a state whose reference map was rebuilt by gcIndex and whose storage lost only garbage has
+   the live set of the state before *)
+Lemma live_after_rebuild kl ords st st' g :
+  (forall i n, In n (ords i) <-> In n (candidates (idx st))) ->
+  gc_index succ subject manifest cfg_fixed kl ords st = Some (idx st', g) ->
+  (forall x, In x (blobs st') -> In x (blobs st)) ->
+  (forall x, Live st x -> In x (blobs st')) ->
+  forall x, Live st' x <-> Live st x.
+Proof.
+  intros Ho Hg Hsub Hkeep.
+  destruct (gc_index_full st ords Ho kl) as (ix' & g' & Hg' & _ & HT & D1 & D2 & _).
+  rewrite Hg in Hg'. injection Hg' as <- <-.
+  apply Live_rebuilt; try assumption.
+  intros d r Hd. now destruct (D1 d r Hd).
+Qed.
+
+(* GC whose context is cancelled in the sweep after [k] entries of the directory order: the
+   index is rebuilt exactly as by a complete GC, no live blob is removed, what is removed is
+   garbage among the handled entries, and the live set is unchanged *)
+Lemma gc_cancel_spec : forall kl ords order k st,
+  (forall i n, In n (ords i) <-> In n (candidates (idx st))) ->
+  exists st',
+    gc_cancel succ subject manifest cfg_fixed kl ords order k st = (st', ECanceled) /\
+    idx st' = idx (fst (gc succ subject manifest cfg_fixed kl ords st)) /\
+    gnodes st' = gnodes (fst (gc succ subject manifest cfg_fixed kl ords st)) /\
+    (forall x, In x (gnodes st') <-> Live st x) /\
+    (forall x, In x (blobs st') <->
+               In x (blobs st) /\ (Live st x \/ swept_blob x (firstn k order) = false)) /\
+    (forall s, In s (strays st') <->
+               In s (strays st) /\ (s_known s && s_valid s = false \/
+                                    swept_stray (s_id s) (firstn k order) = false)) /\
+    autogc st' = autogc st /\
+    (forall x, Live st' x <-> Live st x).
+Proof.
+  intros kl ords order k st Ho. unfold gc_cancel, gc.
+  destruct (gc_index_spec st ords Ho kl) as (ix' & g & Hg & HL & Ht). rewrite Hg.
+  eexists. split; [reflexivity|]. cbn [fst idx gnodes blobs strays autogc].
+  assert (Hb : forall x, In x (filter (fun n => memb n g || negb (swept_blob n (firstn k order))) (blobs st)) <->
+               In x (blobs st) /\ (Live st x \/ swept_blob x (firstn k order) = false)).
+  { intro x. rewrite filter_In, orb_true_iff, negb_true_iff, memb_In, HL. tauto. }
+  split; [reflexivity|]. split; [reflexivity|]. split; [intro x; rewrite dedup_In; apply HL|].
+  split; [exact Hb|]. split; [|split; [reflexivity|]].
+  - intro s. rewrite filter_In, orb_true_iff, negb_true_iff. unfold sweep_stray.
+    rewrite negb_true_iff. tauto.
+  - eapply (live_after_rebuild kl ords st _ g Ho); cbn [idx blobs].
+    + exact Hg.
+    + intros x Hx. apply Hb in Hx. tauto.
+    + intros x Hx. apply Hb. split; [eapply Live_in; eauto|now left].
+Qed.
+
+(* the live set of the state after a complete GC is the live set before: GC is idempotent *)
+Lemma gc_live_same : forall kl ords st,
+  (forall i n, In n (ords i) <-> In n (candidates (idx st))) ->
+  forall x, Live (fst (gc succ subject manifest cfg_fixed kl ords st)) x <-> Live st x.
+Proof.
+  intros kl ords st Ho.
+  destruct (gc_cancel_spec kl ords [] 0 st Ho) as (sc & Hc & Ei & _ & _ & Hb & _ & _ & _).
+  destruct (gc_exact kl ords st Ho) as (st' & Hg & _ & Hb' & _).
+  unfold gc in *. destruct (gc_index_spec st ords Ho kl) as (ix' & g & Hgi & HL & _).
+  rewrite Hgi in *. injection Hg as <-. cbn [fst].
+  apply (live_after_rebuild kl ords st _ g Ho); cbn [idx blobs].
+  - exact Hgi.
+  - intros x Hx. apply filter_In in Hx. tauto.
+  - intros x Hx. apply filter_In. split; [eapply Live_in; eauto|]. apply memb_In. now apply HL.
 Qed.
 
 (* every live node keeps exactly its live predecessors *)
@@ -529,10 +769,21 @@ Definition waiting (proc : list nat) (r : nat) : Prop :=
 
 (* the reference map during the cascade: the entries of the start state whose target is not
    processed, plus by-digest entries of manifests that lost their last predecessor *)
+(* by-digest references name their own content (true in every reachable state: refs_ok) *)
+Definition digs_ok0 : Prop := forall d n, In (RDig d, n) (idx st0) -> d = n.
+
+(* d is a manifest of the graph that is not processed, had predecessors, lost all of them and
+   had no by-digest reference: delete() lists it by its digest *)
+Definition rerooted (proc : list nat) (d : nat) : Prop :=
+  manifest d = true /\ In d G /\ ~ In d proc /\ (exists p, In p G /\ In d (succ p)) /\
+  (forall p, In p G -> In d (succ p) -> In p proc) /\ (forall m, ~ In (RDig d, m) (idx st0)).
+
 Definition idx_rel (ix : list (ref * nat)) (proc : list nat) : Prop :=
   (forall e, In e ix -> ~ In (snd e) proc /\
-             (In e (idx st0) \/ exists d, e = (RDig d, d) /\ manifest d = true)) /\
-  (forall e, In e (idx st0) -> ~ In (snd e) proc -> In e ix).
+             (In e (idx st0) \/ exists d, e = (RDig d, d) /\ manifest d = true /\
+                                         (digs_ok0 -> rerooted proc d))) /\
+  (forall e, In e (idx st0) -> ~ In (snd e) proc -> In e ix) /\
+  (digs_ok0 -> forall d, rerooted proc d -> In (RDig d, d) ix).
 
 Record DInv (st : state) (queue seen proc pending : list nat) : Prop := {
   di_seen : seen = proc ++ queue;
@@ -556,7 +807,7 @@ Record DInv (st : state) (queue seen proc pending : list nat) : Prop := {
 Lemma tagged_same st proc y :
   idx_rel (idx st) proc -> ~ In y proc -> is_tagged st y = is_tagged st0 y.
 Proof.
-  intros [H1 H2] Hy. apply eq_true_iff_eq. rewrite !is_tagged_spec.
+  intros [H1 [H2 _]] Hy. apply eq_true_iff_eq. rewrite !is_tagged_spec.
   split; intros (t & [H|H]); exists t.
   - left. destruct (H1 _ H) as [_ [Ho|(d & E & _)]]; [assumption|discriminate].
   - right. destruct (H1 _ H) as [_ [Ho|(d & E & _)]]; [assumption|discriminate].
@@ -637,16 +888,67 @@ Proof.
       { intro y. unfold fresh. rewrite dedup_In, filter_In, ord_perm.
         rewrite negb_true_iff, memb_false. tauto. }
       assert (Hidx' : idx_rel (idx st') (proc ++ [h])).
-      { destruct (di_i _ _ _ _ _ I) as [Hi1 Hi2]. unfold st'. cbn [idx]. split.
-        - intros e He. apply del_idx_In in He as [[He Hne]|(d & -> & Hd & Hm & _)].
-          + destruct (Hi1 e He) as [Hp Ho]. split; [|exact Ho].
-            rewrite in_app_iff. simpl. intros [H|[H|[]]]; [contradiction|congruence].
-          + apply danglings_In in Hd as (_ & Hs & Hg & _). apply (di_g _ _ _ _ _ I) in Hg.
-            apply succ_lt in Hs. split; [|right; eauto].
-            rewrite in_app_iff. simpl. intros [H|[H|[]]]; [tauto|lia].
+      { destruct (di_i _ _ _ _ _ I) as [Hi1 [Hi2 Hi3]]. unfold st'. cbn [idx].
+        assert (Hmono : forall d, rerooted proc d -> d <> h -> rerooted (proc ++ [h]) d).
+        { intros d (A & B0 & C & D & E & F) Hne. repeat split; try assumption.
+          - rewrite in_app_iff. simpl. intros [H|[H|[]]]; [contradiction|congruence].
+          - intros p Hp Hs. apply in_or_app. left. now apply E. }
+        split; [|split].
+        - intros e He. apply del_idx_In in He as [[He Hne]|(d & -> & Hd & Hm & Hl)].
+          + destruct (Hi1 e He) as [Hp Ho]. split.
+            * rewrite in_app_iff. simpl. intros [H|[H|[]]]; [contradiction|congruence].
+            * destruct Ho as [Ho|(d & Ed & Hm & Hr)]; [now left|right]. exists d.
+              split; [exact Ed|split; [exact Hm|]].
+              intro P. apply Hmono; [now apply Hr|]. subst e. exact Hne.
+          + apply danglings_In in Hd as (Hhg & Hs & Hg & Hall). apply (di_g _ _ _ _ _ I) in Hg.
+            apply (di_g _ _ _ _ _ I) in Hhg as [HhG _].
+            pose proof (succ_lt _ _ Hs) as Hlt.
+            assert (Hdp : ~ In d (proc ++ [h])) by (rewrite in_app_iff; simpl; intros [H|[H|[]]]; [tauto|lia]).
+            split; [exact Hdp|]. right. exists d. split; [reflexivity|split; [exact Hm|]].
+            intro P. unfold rerooted. split; [exact Hm|]. split; [tauto|]. split; [exact Hdp|].
+            split; [|split].
+            * exists h. split; assumption.
+            * intros p Hp Hps. destruct (in_dec Nat.eq_dec p proc) as [Hpp|Hpp]; apply in_or_app; [now left|right].
+              left. symmetry. apply Hall; [apply (di_g _ _ _ _ _ I); tauto|assumption].
+            * intros m Hm0. pose proof (P _ _ Hm0). subst m.
+              assert (Hin : In (RDig d, d) (filter (fun e => negb (snd e =? h)) (idx st))).
+              { apply filter_In. split; [apply Hi2; [assumption|cbn; tauto]|].
+                cbn. apply negb_true_iff, Nat.eqb_neq. lia. }
+              clear -Hin Hl. induction (filter _ _) as [|[r k] l IH]; [destruct Hin|].
+              simpl in Hl. destruct (ref_eqb r (RDig d)) eqn:E; [discriminate|].
+              destruct Hin as [Hin|Hin]; [injection Hin as -> ->; simpl in E; rewrite Nat.eqb_refl in E; discriminate|auto].
         - intros e He Hp. apply del_idx_In. left. rewrite in_app_iff in Hp. simpl in Hp. split.
           + apply Hi2; [assumption|]. intro H. apply Hp. now left.
-          + intro H. apply Hp. right. left. congruence. }
+          + intro H. apply Hp. right. left. congruence.
+        - intros P d (A & B0 & C & D & E & F).
+          assert (Hdh : d <> h) by (intro; subst; apply C; apply in_or_app; right; now left).
+          assert (Hdp : ~ In d proc) by (intro H; apply C; apply in_or_app; now left).
+          apply del_idx_In.
+          destruct (in_dec Nat.eq_dec h G) as [HhG|HhG]; [destruct (in_dec Nat.eq_dec d (succ h)) as [Hsh|Hsh]|].
+          + right. exists d. split; [reflexivity|].
+            assert (Hdang : In d (danglings succ (gnodes st) h)).
+            { apply danglings_In. repeat split; try assumption.
+              - apply (di_g _ _ _ _ _ I). tauto.
+              - apply (di_g _ _ _ _ _ I). tauto.
+              - intros p Hp Hps. apply (di_g _ _ _ _ _ I) in Hp as [HpG Hpp].
+                specialize (E p HpG Hps). apply in_app_or in E as [H|[H|[]]]; [tauto|congruence]. }
+            split; [exact Hdang|]. split; [exact A|].
+            destruct (lookup (RDig d) (filter (fun e => negb (snd e =? h)) (idx st))) as [m|] eqn:El; [|reflexivity].
+            exfalso.
+            assert (Hin : In (RDig d, m) (idx st)).
+            { clear -El. induction (idx st) as [|[r k] l IH]; [discriminate|]. simpl in El.
+              destruct (negb (k =? h)); [|right; auto]. simpl in El.
+              destruct (ref_eqb r (RDig d)) eqn:E; [|right; auto].
+              apply ref_eqb_eq in E. injection El as <-. subst. now left. }
+            destruct (Hi1 _ Hin) as [_ [Ho|(d' & Ed & _ & Hr)]]; [exact (F m Ho)|].
+            injection Ed as <- <-. destruct (Hr P) as (_ & _ & _ & _ & E' & _).
+            apply Hh_proc. now apply E'.
+          + left. split; [|cbn; assumption]. apply Hi3; [assumption|]. repeat split; try assumption.
+            intros p Hp Hps. specialize (E p Hp Hps). apply in_app_or in E as [H|[H|[]]]; [assumption|].
+            subst. contradiction.
+          + left. split; [|cbn; assumption]. apply Hi3; [assumption|]. repeat split; try assumption.
+            intros p Hp Hps. specialize (E p Hp Hps). apply in_app_or in E as [H|[H|[]]]; [assumption|].
+            subst. contradiction. }
       assert (Hrefs : forall r, In r refs <->
                 manifest h = true /\ In r (gnodes st) /\ subject r = Some h /\ is_tagged st0 r = false).
       { intro r. unfold refs. destruct (manifest h).
@@ -790,7 +1092,8 @@ Proof.
   - now left.
   - tauto.
   - tauto.
-  - split; [intros e He; split; [tauto|now left]|intros e He _; exact He].
+  - split; [intros e He; split; [tauto|now left]|split; [intros e He _; exact He|]].
+    intros _ d (_ & _ & _ & (p & Hp & Hs) & E & _). destruct (E p Hp Hs).
   - assumption.
   - intros y [<-|[]]. constructor.
   - intros y [<-|[]]. now left.
@@ -824,25 +1127,35 @@ Lemma delete_exact_sec :
     ((forall e, In e (idx st') -> ~ Gone (snd e) /\
         (In e (idx st0) \/ exists d, e = (RDig d, d) /\ manifest d = true)) /\
      (forall e, In e (idx st0) -> ~ Gone (snd e) -> In e (idx st'))) /\
-    strays st' = strays st0 /\ autogc st' = autogc st0.
+    strays st' = strays st0 /\ autogc st' = autogc st0 /\
+    (* exactly which references are new, when by-digest references name their own content *)
+    (digs_ok0 -> forall d, ~ In (RDig d, d) (idx st0) ->
+       (In (RDig d, d) (idx st') <->
+        manifest d = true /\ In d G /\ ~ Gone d /\ (exists p, In p G /\ In d (succ p)) /\
+        (forall p, In p G -> In d (succ p) -> Gone p) /\ (forall m, ~ In (RDig d, m) (idx st0)))).
 Proof.
   unfold delete. cbn [fixF4 cfg_fixed]. unfold delete_fuel.
   destruct (delete_loop_spec (S (S (length (gnodes st0)))) 0 st0 [x] [x] [] [] DInv_init)
     as (st' & proc & pend & Hd & I).
   { simpl. fold G. lia. }
   exists st'. split; [exact Hd|].
-  pose proof (final_gone st' proc pend I) as HG. repeat split.
-  - apply (di_b _ _ _ _ _ I) in H. tauto.
-  - apply (di_b _ _ _ _ _ I) in H as [_ H]. now rewrite <- HG.
-  - intros [H1 H2]. apply (di_b _ _ _ _ _ I). rewrite HG. tauto.
-  - apply (di_g _ _ _ _ _ I) in H. tauto.
-  - apply (di_g _ _ _ _ _ I) in H as [_ H]. now rewrite <- HG.
-  - intros [H1 H2]. apply (di_g _ _ _ _ _ I). rewrite HG. tauto.
-  - rewrite <- HG. now apply (proj1 (di_i _ _ _ _ _ I)) in H.
-  - now apply (proj1 (di_i _ _ _ _ _ I)) in H.
-  - intros e He Hn. apply (proj2 (di_i _ _ _ _ _ I)); [assumption|]. now rewrite HG.
+  pose proof (final_gone st' proc pend I) as HG.
+  destruct (di_i _ _ _ _ _ I) as [Hi1 [Hi2 Hi3]].
+  split; [|split; [|split; [split|split; [|split]]]].
+  - intro y. rewrite (di_b _ _ _ _ _ I), HG. tauto.
+  - intro y. rewrite (di_g _ _ _ _ _ I), HG. tauto.
+  - intros e He. destruct (Hi1 e He) as [Hp [Ho|(d & E & Hm & _)]]; (split; [now rewrite <- HG|]); [now left|right; eauto].
+  - intros e He Hn. apply Hi2; [assumption|]. now rewrite HG.
   - apply (di_s _ _ _ _ _ I).
   - rewrite (di_a _ _ _ _ _ I). now rewrite auto_on.
+  - intros P d Hnot. split.
+    + intro Hin. destruct (Hi1 _ Hin) as [_ [Ho|(d' & E & _ & Hr)]]; [contradiction|].
+      injection E as <-. destruct (Hr P) as (A & B0 & C & D & E' & F).
+      split; [exact A|]. split; [exact B0|]. split; [now rewrite <- HG|]. split; [exact D|].
+      split; [|exact F]. intros p Hp Hs. apply HG. now apply E'.
+    + intros (A & B0 & C & D & E' & F). apply (Hi3 P).
+      split; [exact A|]. split; [exact B0|]. split; [now rewrite HG|]. split; [exact D|].
+      split; [|exact F]. intros p Hp Hs. apply HG. now apply E'.
 Qed.
 
 (* what the cascade never touches *)
@@ -976,11 +1289,6 @@ Lemma filter_all {A} (f : A -> bool) l : (forall x, In x l -> f x = true) -> fil
 Proof.
   induction l as [|a l IH]; intro H; [reflexivity|]. simpl. rewrite (H a (or_introl eq_refl)).
   f_equal. apply IH. intros x Hx. apply H. now right.
-Qed.
-
-Lemma Reach_mono bl bl' n x : (forall y, In y bl -> In y bl') -> Reach bl n x -> Reach bl' n x.
-Proof.
-  intros Hs H. induction H as [n Hn|n s x Hn Hsn _ IH]; [apply R_refl; auto|eapply R_step; eauto].
 Qed.
 
 Lemma Reach_inside bl (g : list nat) n x :
@@ -1127,7 +1435,10 @@ Inductive Hist (kl any : bool) : state -> Prop :=
 | H_reopen st : any = true -> Hist kl any st ->
     Hist kl any (fst (step succ subject manifest cfg_fixed kl st OReopen))
 | H_foreign st : any = true -> Hist kl any st ->
-    Hist kl any (fst (step succ subject manifest cfg_fixed kl st OForeign)).
+    Hist kl any (fst (step succ subject manifest cfg_fixed kl st OForeign))
+| H_gc_cancel st ords order k : any = true -> Hist kl any st ->
+    (forall i n, In n (ords i) <-> In n (candidates (idx st))) ->
+    Hist kl any (fst (gc_cancel succ subject manifest cfg_fixed kl ords order k st)).
 
 Lemma gc_wf kl ords st : (forall i n, In n (ords i) <-> In n (candidates (idx st))) ->
   wf (fst (gc succ subject manifest cfg_fixed kl ords st)).
@@ -1148,7 +1459,9 @@ Qed.
 
 Lemma hist_wf kl any st : Hist kl any st -> wf st.
 Proof.
-  induction 1 as [|st o _ IH _|st n ord _ IH _|st ords _ IH Ho|st ords _ IH Ho|st _ _ IH|st _ _ IH].
+  induction 1 as [|st o _ IH _|st n ord _ IH _|st ords _ IH Ho|st ords _ IH Ho|st _ _ IH|st _ _ IH|st ords order k _ _ IH Ho].
+  8: { destruct (gc_cancel_spec kl ords order k st Ho) as (sc & Ec & _ & _ & Hg & Hb & _). rewrite Ec. cbn [fst].
+       intros y Hy. apply Hg in Hy. apply Hb. split; [eapply Live_in; eauto|now left]. }
   - intros y [].
   - now apply step_wf.
   - unfold delete. now apply delete_loop_wf.
@@ -1160,7 +1473,7 @@ Qed.
 
 Lemma hist_full kl st : Hist kl false st -> full st.
 Proof.
-  induction 1 as [|st o _ IH Ho|st n ord _ IH _|st ords _ IH Ho|st ords _ IH Ho|st Hf _ _|st Hf _ _]; try discriminate.
+  induction 1 as [|st o _ IH Ho|st n ord _ IH _|st ords _ IH Ho|st ords _ IH Ho|st Hf _ _|st Hf _ _|st ords order k Hf _ _ _]; try discriminate.
   - intros y [].
   - destruct o as [n|n t|t|n| |b|s| |]; try contradiction; simpl.
     + unfold push. destruct (memb n (blobs st)); [exact IH|]. intros y Hy. simpl in *.
@@ -1182,7 +1495,9 @@ Qed.
 
 Lemma hist_no_stale kl any st : Hist kl any st -> no_stale st.
 Proof.
-  induction 1 as [|st o _ IH _|st n ord _ IH _|st ords _ IH Ho|st ords _ IH Ho|st _ _ IH|st _ _ IH].
+  induction 1 as [|st o _ IH _|st n ord _ IH _|st ords _ IH Ho|st ords _ IH Ho|st _ _ IH|st _ _ IH|st ords order k _ _ IH Ho].
+  8: { destruct (gc_cancel_spec kl ords order k st Ho) as (sc & Ec & Ei & _). rewrite Ec. cbn [fst].
+       intros t n H. rewrite Ei in H. exact (gc_no_stale kl ords st IH t n H). }
   - intros t n [].
   - now apply step_no_stale.
   - unfold delete. now apply delete_loop_no_stale.
@@ -1190,6 +1505,388 @@ Proof.
   - apply step_no_stale. now apply gc_no_stale.
   - now apply step_no_stale.
   - now apply step_no_stale.
+Qed.
+
+
+(* ------------------------------------------------------------------ *)
+(* persistence: index.json *)
+
+(* shape of the reference map: a by-digest reference names its own content, every tagged
+   descriptor also has its by-digest reference *)
+Definition refs_ok (ix : list (ref * nat)) : Prop :=
+  (forall d n, In (RDig d, n) ix -> d = n) /\
+  (forall t n, In (RTag t, n) ix -> In (RDig n, n) ix).
+
+Definition nonstale (e : ref * nat) : bool := match fst e with RStale _ => false | _ => true end.
+
+Lemma save_form_In ix e :
+  In e (save_form ix) <->
+  In e ix /\ match fst e with
+             | RTag _ => True
+             | RDig _ => ~ In (snd e) (tagged_nodes ix)
+             | RStale _ => False end.
+Proof.
+  unfold save_form. rewrite filter_In. destruct e as [[t|d|t] n]; cbn [fst snd].
+  - tauto.
+  - rewrite negb_true_iff, memb_false. tauto.
+  - split; [intros [_ H]; discriminate|tauto].
+Qed.
+
+Lemma load_form_In d e :
+  In e (load_form d) <->
+  exists e0, In e0 d /\ match fst e0 with
+                        | RTag t => e = (RDig (snd e0), snd e0) \/ e = (RTag t, snd e0)
+                        | RDig _ => e = (RDig (snd e0), snd e0)
+                        | RStale _ => False end.
+Proof.
+  unfold load_form. rewrite in_flat_map. split; intros (e0 & H0 & H); exists e0; (split; [assumption|]);
+    destruct e0 as [[t|d0|t] n]; cbn [fst snd] in *.
+  - destruct H as [H|[H|[]]]; auto.
+  - destruct H as [H|[]]; auto.
+  - destruct H.
+  - destruct H as [H|H]; [left|right; left]; auto.
+  - left. auto.
+  - destruct H.
+Qed.
+
+(* loadIndex after saveIndex gives back the reference map *)
+Lemma load_save ix e : refs_ok ix ->
+  (In e (load_form (save_form ix)) <-> In e ix /\ nonstale e = true).
+Proof.
+  intros [R1 R2]. rewrite load_form_In. split.
+  - intros (e0 & H0 & H). apply save_form_In in H0 as [H0 Hc]. destruct e0 as [[t|d0|t] n]; cbn [fst snd] in *.
+    + destruct H as [->| ->]; (split; [|reflexivity]); [now apply (R2 t)|assumption].
+    + subst e. pose proof (R1 _ _ H0). subst d0. split; [assumption|reflexivity].
+    + destruct H.
+  - intros [He Hn]. destruct e as [[t|d0|t] n]; cbn in Hn; try discriminate.
+    + exists (RTag t, n). split; [apply save_form_In; cbn; tauto|cbn; now right].
+    + pose proof (R1 _ _ He). subst d0.
+      destruct (in_dec Nat.eq_dec n (tagged_nodes ix)) as [Ht|Ht].
+      * apply tagged_nodes_In in Ht as (t & Ht). exists (RTag t, n).
+        split; [apply save_form_In; cbn; tauto|cbn; now left].
+      * exists (RDig n, n). split; [apply save_form_In; cbn; tauto|reflexivity].
+Qed.
+
+Definition seteq {A} (a b : list A) : Prop := forall e, In e a <-> In e b.
+
+Lemma tagged_nodes_seteq a b : seteq a b -> seteq (tagged_nodes a) (tagged_nodes b).
+Proof. intros H n. rewrite !tagged_nodes_In. split; intros (t & Ht); exists t; now apply H. Qed.
+
+Lemma save_form_seteq a b : seteq a b -> seteq (save_form a) (save_form b).
+Proof.
+  intros H e. rewrite !save_form_In. pose proof (tagged_nodes_seteq a b H (snd e)) as Ht.
+  destruct e as [[t|d|t] n]; cbn [fst snd] in *; rewrite (H _); tauto.
+Qed.
+
+Lemma load_form_seteq a b : seteq a b -> seteq (load_form a) (load_form b).
+Proof. intros H e. rewrite !load_form_In. split; intros (e0 & H0 & Hc); exists e0; (split; [now apply H|assumption]). Qed.
+
+(* stale tag-set entries are not written *)
+Lemma save_form_nonstale ix : seteq (save_form (filter nonstale ix)) (save_form ix).
+Proof.
+  intro e. rewrite !save_form_In, filter_In.
+  assert (Ht : forall n, In n (tagged_nodes (filter nonstale ix)) <-> In n (tagged_nodes ix)).
+  { intro n. rewrite !tagged_nodes_In. split; intros (t & H); exists t.
+    - apply filter_In in H. tauto.
+    - apply filter_In. split; [assumption|reflexivity]. }
+  destruct e as [[t|d|t] n]; cbn [fst snd]; unfold nonstale; cbn [fst]; rewrite ?Ht; tauto.
+Qed.
+
+Lemma refs_ok_load d : refs_ok (load_form d).
+Proof.
+  split.
+  - intros d0 n H. apply load_form_In in H as (e0 & _ & H). destruct e0 as [[t|d1|t] m]; cbn [fst snd] in H.
+    + destruct H as [H|H]; congruence.
+    + congruence.
+    + destruct H.
+  - intros t n H. apply load_form_In in H as (e0 & H0 & H). apply load_form_In. exists e0.
+    split; [assumption|]. destruct e0 as [[t0|d1|t0] m]; cbn [fst snd] in *.
+    + destruct H as [H|H]; [discriminate|]. injection H as -> ->. now left.
+    + discriminate.
+    + destruct H.
+Qed.
+
+Lemma refs_ok_seteq a b : seteq a b -> refs_ok a -> refs_ok b.
+Proof.
+  intros H [R1 R2]. split.
+  - intros d n Hd. apply (R1 d n). now apply H.
+  - intros t n Ht. apply H. apply (R2 t). now apply H.
+Qed.
+
+Lemma entries_eqb_eq a : forall b, entries_eqb a b = true -> a = b.
+Proof.
+  induction a as [|x a IH]; intros [|y b]; simpl; intro H; try discriminate; [reflexivity|].
+  apply andb_true_iff in H as [H1 H2]. unfold entry_eqb in H1. apply andb_true_iff in H1 as [Hr Hn].
+  apply ref_eqb_eq in Hr. apply Nat.eqb_eq in Hn. destruct x, y. simpl in *. subst. f_equal. now apply IH.
+Qed.
+
+(* refs_ok is kept by every operation of the repaired code *)
+Lemma set_ref_In r n ix e : In e (set_ref r n ix) <-> e = (r, n) \/ (In e ix /\ fst e <> r).
+Proof.
+  unfold set_ref. simpl. rewrite filter_In, negb_true_iff. split.
+  - intros [H|[H1 H2]]; [left; congruence|right]. split; [assumption|].
+    intro E. apply ref_eqb_eq in E. congruence.
+  - intros [H|[H1 H2]]; [left; congruence|right]. split; [assumption|].
+    destruct (ref_eqb (fst e) r) eqn:E; [|reflexivity]. apply ref_eqb_eq in E. contradiction.
+Qed.
+
+Lemma refs_ok_set_dig n ix : refs_ok ix -> refs_ok (set_ref (RDig n) n ix).
+Proof.
+  intros [R1 R2]. split.
+  - intros d m H. apply set_ref_In in H as [H|[H _]]; [congruence|eauto].
+  - intros t m H. apply set_ref_In in H as [H|[H _]]; [discriminate|].
+    apply set_ref_In. destruct (Nat.eq_dec m n) as [->|Hne]; [now left|right].
+    split; [now apply (R2 t)|]. cbn. congruence.
+Qed.
+
+Lemma delete_loop_refs_ok c ord : forall fuel k st queue seen pending,
+  refs_ok (idx st) ->
+  refs_ok (idx (fst (delete_loop succ subject manifest c ord fuel k st queue seen pending))).
+Proof.
+  induction fuel as [|f IH]; intros k st queue seen pending Hw; [exact Hw|].
+  cbn [delete_loop]. destruct queue as [|h q]; [exact Hw|].
+  unfold delete_one.
+  assert (Hw' : refs_ok (del_idx succ manifest st h)).
+  { destruct Hw as [R1 R2]. split.
+    - intros d n H. apply del_idx_In in H as [[H _]|(d0 & E & _)]; [eauto|congruence].
+    - intros t n H. apply del_idx_In in H as [[H Hn]|(d0 & E & _)]; [|discriminate].
+      apply del_idx_In. left. split; [now apply (R2 t)|exact Hn]. }
+  destruct (memb h (blobs st)); [|exact Hw'].
+  apply IH. exact Hw'.
+Qed.
+
+Lemma gc_refs_ok kl ords st : (forall i n, In n (ords i) <-> In n (candidates (idx st))) ->
+  refs_ok (idx (fst (gc succ subject manifest cfg_fixed kl ords st))).
+Proof.
+  intro Ho. unfold gc.
+  destruct (gc_index_full st ords Ho kl) as (ix' & g & Hg & _ & HT & D1 & _ & D3 & _). rewrite Hg.
+  cbn [fst idx]. split.
+  - intros d n H. now destruct (D1 d n H).
+  - intros t n H. apply HT in H. now apply (D3 t).
+Qed.
+
+Lemma step_refs_ok kl st o : refs_ok (idx st) ->
+  refs_ok (idx (fst (step succ subject manifest cfg_fixed kl st o))).
+Proof.
+  intro Hw. destruct o as [n|n t|t|n| |b|s| |]; cbn [step].
+  - unfold push. destruct (memb n (blobs st)); [exact Hw|]. cbn [fst idx].
+    destruct (manifest n); [now apply refs_ok_set_dig|exact Hw].
+  - unfold tag. destruct (memb n (blobs st)); [|exact Hw]. cbn [fst idx fixStale cfg_fixed orb].
+    assert (E : match lookup (RTag t) (idx st) with Some _ => [] | None => [] end = (@nil (ref * nat)))
+      by (destruct (lookup (RTag t) (idx st)); reflexivity).
+    rewrite E. cbn [app]. pose proof (refs_ok_set_dig n _ Hw) as [R1 R2]. split.
+    + intros d m H. apply set_ref_In in H as [H|[H _]]; [discriminate|eauto].
+    + intros t' m H. apply set_ref_In. right. split; [|cbn; discriminate].
+      apply set_ref_In in H as [H|[H _]].
+      * injection H as -> ->. apply set_ref_In. now left.
+      * now apply (R2 t').
+  - unfold untag. destruct (lookup (RTag t) (idx st)); [|exact Hw]. cbn [fst idx].
+    destruct Hw as [R1 R2]. split.
+    + intros d m H. apply filter_In in H as [H _]. eauto.
+    + intros t' m H. apply filter_In in H as [H Hc]. apply filter_In. split; [now apply (R2 t')|reflexivity].
+  - unfold delete. now apply delete_loop_refs_ok.
+  - apply gc_refs_ok. tauto.
+  - exact Hw.
+  - exact Hw.
+  - cbn [fst idx]. destruct Hw as [R1 R2]. split.
+    + intros d m H. apply filter_In in H as [H _]. eauto.
+    + intros t' m H. apply filter_In in H as [H _]. apply filter_In. split; [now apply (R2 t')|reflexivity].
+  - cbn [fst idx]. split.
+    + intros d m H. apply in_flat_map in H as ([r k] & _ & H). destruct r; cbn in H; try contradiction.
+      destruct H as [H|[H|[]]]; congruence.
+    + intros t' m H. apply in_flat_map in H as ([r k] & Hk & H). apply in_flat_map. exists (r, k).
+      split; [assumption|]. destruct r; cbn in *; try contradiction.
+      destruct H as [H|[H|[]]]; [discriminate|]. injection H as -> ->. now left.
+Qed.
+
+(* the order of effects in the Go source (regenerated call sequences) is the one the model of
+   persistence relies on; a reordering of the source breaks these three lemmas *)
+Lemma gc_saves_before_sweep_ok : gc_saves_before_sweep = true.
+Proof. vm_compute. reflexivity. Qed.
+Lemma gc_tests_ctx_before_remove_ok : gc_tests_ctx_before_remove = true.
+Proof. vm_compute. reflexivity. Qed.
+Lemma delete_saves_before_unlink_ok : delete_saves_before_unlink = true.
+Proof. vm_compute. reflexivity. Qed.
+
+(* index.json is current: [disk] is what saveIndex writes for the reference map *)
+Definition synced (p : pstate) : Prop := seteq (disk p) (save_form (idx (mem p))).
+Definition pstate_ok (p : pstate) : Prop := refs_ok (idx (mem p)) /\ synced p /\ autosave p = true.
+
+Lemma saved_synced b p m :
+  (b = false -> seteq (disk p) (save_form (idx m))) -> synced (saved b p m).
+Proof.
+  intros H. unfold synced, saved. cbn [disk mem]. destruct b; [intro; tauto|now apply H].
+Qed.
+
+Lemma pstep_ok kl p o : pstate_ok p -> o <> PAutoSave false ->
+  pstate_ok (fst (pstep succ subject manifest cfg_fixed kl p o)).
+Proof.
+  intros (Hr & Hs & Ha) Hne. destruct o as [o| |b|early order k|bad|alt|order k].
+  6: { cbn [pstep fst]. split; [|split; [|exact Ha]].
+       - cbn [mem saved idx]. destruct Hr as [R1 R2]. split.
+         + intros d m H. apply filter_In in H as [H _]. eauto.
+         + intros t m H. apply filter_In in H as [H Hc]. apply filter_In. split; [now apply (R2 t)|exact Hc].
+       - rewrite Ha, delete_saves_before_unlink_ok. apply saved_synced. cbn [andb orb]. rewrite andb_true_r. intro Hq.
+         apply negb_false_iff in Hq. apply entries_eqb_eq in Hq. cbn [idx]. rewrite Hq. exact Hs. }
+  6: { cbn [pstep].
+       destruct (gc_cancel succ subject manifest cfg_fixed kl (fun _ => candidates (idx (mem p))) order k (mem p)) as [m r] eqn:E.
+       cbn [fst]. unfold gc_cancel in E.
+       pose proof (gc_refs_ok kl (fun _ => candidates (idx (mem p))) (mem p) ltac:(tauto)) as Hg. unfold gc in Hg.
+       destruct (gc_index _ _ _ _ _ _ (mem p)) as [[ix g]|]; injection E as <- <-.
+       - cbn [fst idx] in Hg. split; [exact Hg|split; [|exact Ha]].
+         rewrite Ha, gc_saves_before_sweep_ok. apply saved_synced. discriminate.
+       - split; [exact Hr|split; [|exact Ha]]. rewrite Ha. apply saved_synced. intros _. exact Hs. }
+  5: { cbn [pstep fst]. split; [exact Hr|split; assumption]. }
+  - destruct o as [n|n t|t|n| |b|s| |]; cbn [pstep].
+    + pose proof (step_refs_ok kl (mem p) (OPush n) Hr) as Hr'. cbn [step] in Hr'.
+      unfold push in *. destruct (memb n (blobs (mem p))) eqn:E; cbn [fst] in *.
+      * rewrite Ha. cbn. split; [exact Hr|split; [|exact Ha]].
+        apply saved_synced. intros _. exact Hs.
+      * split; [exact Hr'|split; [|exact Ha]]. rewrite Ha. cbn [andb is_ok].
+        apply saved_synced. intro Hm. rewrite andb_true_r in Hm. cbn [idx]. rewrite Hm. exact Hs.
+    + pose proof (step_refs_ok kl (mem p) (OTag n t) Hr) as Hr'. cbn [step] in Hr'.
+      destruct (tag manifest cfg_fixed (mem p) n t) as [m r] eqn:E. cbn [fst] in *.
+      split; [exact Hr'|split; [|exact Ha]]. rewrite Ha. apply saved_synced. cbn [andb]. intro Hok.
+      unfold tag in E. destruct (memb n (blobs (mem p))); injection E as <- <-; [discriminate|exact Hs].
+    + pose proof (step_refs_ok kl (mem p) (OUntag t) Hr) as Hr'. cbn [step] in Hr'.
+      destruct (untag (mem p) t) as [m r] eqn:E. cbn [fst] in *.
+      split; [exact Hr'|split; [|exact Ha]]. rewrite Ha. apply saved_synced. cbn [andb]. intro Hok.
+      unfold untag in E. destruct (lookup (RTag t) (idx (mem p))); injection E as <- <-; [discriminate|exact Hs].
+    + pose proof (step_refs_ok kl (mem p) (ODelete n) Hr) as Hr'. cbn [step] in Hr'.
+      destruct (delete succ subject manifest cfg_fixed ord_id (mem p) n) as [m r] eqn:E. cbn [fst] in *.
+      split; [exact Hr'|split; [|exact Ha]]. rewrite Ha, delete_saves_before_unlink_ok.
+      apply saved_synced. cbn [andb orb]. rewrite andb_true_r. intro Hq.
+      apply negb_false_iff in Hq. apply entries_eqb_eq in Hq. rewrite Hq. exact Hs.
+    + pose proof (step_refs_ok kl (mem p) OGC Hr) as Hr'. cbn [step] in Hr'.
+      destruct (gc succ subject manifest cfg_fixed kl (fun _ => candidates (idx (mem p))) (mem p)) as [m r] eqn:E.
+      cbn [fst] in *. split; [exact Hr'|split; [|exact Ha]]. rewrite Ha. apply saved_synced. cbn [andb]. intro Hok.
+      unfold gc in E. destruct (gc_index _ _ _ _ _ _ (mem p)) as [[ix g]|]; injection E as <- <-; [discriminate|exact Hs].
+    + cbn [fst]. split; [exact Hr|split; [|exact Ha]]. apply saved_synced. intros _. exact Hs.
+    + cbn [fst]. split; [exact Hr|split; [|exact Ha]]. apply saved_synced. intros _. exact Hs.
+    + cbn [fst]. split; [apply refs_ok_load|split; [|reflexivity]].
+      unfold synced, reload. cbn [disk mem idx]. intro e.
+      pose proof (load_form_seteq _ _ Hs) as H1.
+      assert (H2 : seteq (load_form (disk p)) (filter nonstale (idx (mem p)))).
+      { intro x. rewrite (H1 x), (load_save _ x Hr), filter_In. tauto. }
+      rewrite (save_form_seteq _ _ H2 e), (save_form_nonstale _ e). apply Hs.
+    + cbn [fst]. split; [apply refs_ok_load|split; [|reflexivity]].
+      unfold synced, reload. cbn [disk mem idx]. intro e. rewrite save_form_In, load_form_In, filter_In. split.
+      * intros [He Ht]. destruct e as [[t|d|t] n]; cbn in Ht; try discriminate.
+        split; [exists (RTag t, n); split; [apply filter_In; split; [assumption|reflexivity]|cbn; now right]|exact I].
+      * intros ((e0 & H0 & Hc) & Hk). apply filter_In in H0 as [H0 Ht0].
+        destruct e0 as [[t0|d0|t0] m]; cbn in Ht0; try discriminate. cbn [fst snd] in Hc.
+        destruct Hc as [-> | ->].
+        -- exfalso. cbn [fst snd] in Hk. apply Hk. apply tagged_nodes_In. exists t0.
+           apply load_form_In. exists (RTag t0, m). split; [apply filter_In; split; [assumption|reflexivity]|cbn; now right].
+        -- split; [assumption|reflexivity].
+  - cbn [pstep fst]. split; [exact Hr|split; [|exact Ha]]. apply saved_synced. discriminate.
+  - destruct b; [|congruence]. cbn [pstep fst]. split; [exact Hr|split; [exact Hs|reflexivity]].
+  - destruct early; cbn [pstep]; [split; [exact Hr|split; assumption]|].
+    destruct (gc_cancel succ subject manifest cfg_fixed kl (fun _ => candidates (idx (mem p))) order k (mem p)) as [m r] eqn:E.
+    cbn [fst]. unfold gc_cancel in E.
+    pose proof (gc_refs_ok kl (fun _ => candidates (idx (mem p))) (mem p) ltac:(tauto)) as Hg. unfold gc in Hg.
+    destruct (gc_index _ _ _ _ _ _ (mem p)) as [[ix g]|]; injection E as <- <-.
+    + cbn [fst idx] in Hg. split; [exact Hg|split; [|exact Ha]].
+      rewrite Ha, gc_saves_before_sweep_ok, gc_tests_ctx_before_remove_ok. apply saved_synced. discriminate.
+    + split; [exact Hr|split; [|exact Ha]]. rewrite Ha. apply saved_synced. intros _. exact Hs.
+Qed.
+
+Lemma pinit_ok : pstate_ok pinit.
+Proof.
+  split; [split; intros ? ? []|split; [|reflexivity]]. intro e. cbn. tauto.
+Qed.
+
+Lemma prun_ok kl ops : Forall (fun o => o <> PAutoSave false) ops ->
+  pstate_ok (fold_left (fun p o => fst (pstep succ subject manifest cfg_fixed kl p o)) ops pinit).
+Proof.
+  assert (H : forall p, pstate_ok p -> Forall (fun o => o <> PAutoSave false) ops ->
+    pstate_ok (fold_left (fun p o => fst (pstep succ subject manifest cfg_fixed kl p o)) ops p)).
+  { induction ops as [|o ops IH]; intros p Hp Hf; [exact Hp|]. inversion Hf; subst. simpl.
+    apply IH; [now apply pstep_ok|assumption]. }
+  apply H. exact pinit_ok.
+Qed.
+
+(* with a current index.json, a new Store on the directory (reload from disk) is the model's
+   OReopen of the in-memory state: same storage, same references, same graph *)
+Lemma reload_is_reopen kl p : pstate_ok p ->
+  let a := mem (fst (pstep succ subject manifest cfg_fixed kl p (PO OReopen))) in
+  let b := fst (step succ subject manifest cfg_fixed kl (mem p) OReopen) in
+  blobs a = blobs b /\ seteq (idx a) (idx b) /\ seteq (gnodes a) (gnodes b) /\
+  strays a = strays b /\ autogc a = autogc b.
+Proof.
+  intros (Hr & Hs & _). cbn [pstep step fst mem]. unfold reload. cbn [blobs idx gnodes strays autogc].
+  assert (H2 : seteq (load_form (disk p)) (filter nonstale (idx (mem p)))).
+  { intro x. rewrite (load_form_seteq _ _ Hs x), (load_save _ x Hr), filter_In. tauto. }
+  split; [reflexivity|]. split; [exact H2|]. split; [|split; reflexivity].
+  intro x. rewrite !dedup_In, !in_flat_map. split; intros (n & Hn & Hx); exists n; (split; [|assumption]);
+    apply in_map_iff in Hn as (e & <- & He); apply in_map; now apply H2.
+Qed.
+
+
+(* every state of the persistence layer's histories (complete and cancelled GCs, SaveIndex,
+   AutoSaveIndex on or off, reloads from whatever index.json holds) satisfies the hypotheses of
+   the Delete / GC theorems *)
+Lemma reload_wf m d : wf (reload succ manifest cfg_fixed m d).
+Proof.
+  intros y Hy. unfold reload in *. cbn [gnodes blobs] in *. apply (proj1 (dedup_In _ _)) in Hy.
+  apply in_flat_map in Hy as (n & _ & Hy).
+  change (clo succ manifest cfg_fixed) with (closure succ) in Hy.
+  apply closure_spec in Hy. eapply Reach_in; eauto.
+Qed.
+
+Lemma reload_no_stale m d : no_stale (reload succ manifest cfg_fixed m d).
+Proof.
+  intros t n H. unfold reload in H. cbn [idx] in H. apply load_form_In in H as (e0 & _ & H).
+  destruct e0 as [[t0|d0|t0] k]; cbn [fst snd] in H; [destruct H as [H|H]| |]; try discriminate; destruct H.
+Qed.
+
+Lemma pstep_inv kl p o :
+  (forall n, o <> PDeleteAlt n) ->
+  wf (mem p) /\ no_stale (mem p) ->
+  wf (mem (fst (pstep succ subject manifest cfg_fixed kl p o))) /\
+  no_stale (mem (fst (pstep succ subject manifest cfg_fixed kl p o))).
+Proof.
+  intros Halt [Hw Hn]. destruct o as [o| |b|early order k|bad|alt|order k].
+  6: { exfalso. now apply (Halt alt). }
+  6: { cbn [pstep].
+       destruct (gc_cancel_spec kl (fun _ => candidates (idx (mem p))) order k (mem p) ltac:(tauto))
+         as (sc & Ec & Ei & Eg & Hg & Hb & _).
+       rewrite Ec. cbn [fst mem saved]. split.
+       - intros y Hy. apply Hg in Hy. apply Hb. split; [eapply Live_in; eauto|now left].
+       - intros t n H. rewrite Ei in H. exact (gc_no_stale kl _ (mem p) Hn t n H). }
+  - pose proof (step_wf kl (mem p) o Hw) as Hw'. pose proof (step_no_stale kl (mem p) o Hn) as Hn'.
+    destruct o as [n|n t|t|n| |b|s| |]; cbn [pstep step] in *.
+    + destruct (push manifest (mem p) n) as [m r]. cbn [fst mem saved] in *. tauto.
+    + destruct (tag manifest cfg_fixed (mem p) n t) as [m r]. cbn [fst mem saved] in *. tauto.
+    + destruct (untag (mem p) t) as [m r]. cbn [fst mem saved] in *. tauto.
+    + destruct (delete succ subject manifest cfg_fixed ord_id (mem p) n) as [m r]. cbn [fst mem saved] in *. tauto.
+    + destruct (gc succ subject manifest cfg_fixed kl _ (mem p)) as [m r]. cbn [fst mem saved] in *. tauto.
+    + cbn [fst mem saved] in *. tauto.
+    + cbn [fst mem saved] in *. tauto.
+    + cbn [fst mem]. split; [apply reload_wf|apply reload_no_stale].
+    + cbn [fst mem]. split; [apply reload_wf|apply reload_no_stale].
+  - cbn [pstep fst mem saved]. tauto.
+  - cbn [pstep fst mem]. tauto.
+  - destruct early; cbn [pstep]; [tauto|].
+    destruct (gc_cancel_spec kl (fun _ => candidates (idx (mem p))) order k (mem p) ltac:(tauto))
+      as (sc & Ec & Ei & Eg & Hg & Hb & _).
+    rewrite Ec. cbn [fst mem saved]. split.
+    + intros y Hy. apply Hg in Hy. apply Hb. split; [eapply Live_in; eauto|now left].
+    + intros t n H. rewrite Ei in H. exact (gc_no_stale kl _ (mem p) Hn t n H).
+  - cbn [pstep fst]. tauto.
+Qed.
+
+Lemma prun_inv kl ops :
+  Forall (fun o => forall n, o <> PDeleteAlt n) ops ->
+  let p := fold_left (fun p o => fst (pstep succ subject manifest cfg_fixed kl p o)) ops pinit in
+  wf (mem p) /\ no_stale (mem p).
+Proof.
+  assert (H : forall p, Forall (fun o => forall n, o <> PDeleteAlt n) ops -> wf (mem p) /\ no_stale (mem p) ->
+     let q := fold_left (fun p o => fst (pstep succ subject manifest cfg_fixed kl p o)) ops p in
+     wf (mem q) /\ no_stale (mem q)).
+  { induction ops as [|o ops IH]; intros p Hf Hp; [exact Hp|]. inversion Hf; subst. simpl.
+    apply IH; [assumption|]. now apply pstep_inv. }
+  intro Hf. apply H; [exact Hf|]. split; [intros y []|intros t n []].
 Qed.
 
 End Proofs.
@@ -1423,17 +2120,24 @@ Lemma delete_exact_final : forall succ subject manifest,
     (forall r n, In (r, n) (idx st) -> ~ Gone succ subject manifest st x n -> In (r, n) (idx st')) /\
     (forall t n, In (RTag t, n) (idx st') <-> In (RTag t, n) (idx st) /\ n <> x) /\
     (forall r, ~ In (r, x) (idx st')) /\
-    strays st' = strays st /\ autogc st' = autogc st.
+    strays st' = strays st /\ autogc st' = autogc st /\
+    ((forall d n, In (RDig d, n) (idx st) -> d = n) ->
+     forall d, ~ In (RDig d, d) (idx st) ->
+       (In (RDig d, d) (idx st') <->
+        manifest d = true /\ In d (gnodes st) /\ ~ Gone succ subject manifest st x d /\
+        (exists p, In p (gnodes st) /\ In d (succ p)) /\
+        (forall p, In p (gnodes st) -> In d (succ p) -> Gone succ subject manifest st x p) /\
+        (forall m, ~ In (RDig d, m) (idx st)))).
 Proof.
   intros succ subject manifest H1 H2 st x Hw Ha Hx ord Ho.
   destruct (delete_exact_sec succ subject manifest H1 H2 st x Hw Ha Hx ord Ho)
-    as (st' & Hd & A & B & [C1 C2] & D & E).
+    as (st' & Hd & A & B & [C1 C2] & D & E & N).
   assert (Htag : forall t n, In (RTag t, n) (idx st) -> n <> x -> ~ Gone succ subject manifest st x n).
   { intros t n Ht Hn HG.
     pose proof (gone_untagged succ subject manifest st x n HG Hn) as Hf.
     assert (Ht' : is_tagged st n = true) by (apply is_tagged_spec; eauto). congruence. }
   exists st'. split; [exact Hd|]. split; [exact A|]. split; [exact B|].
-  split; [|split; [|split; [|split; [|split; [exact D|exact E]]]]].
+  split; [|split; [|split; [|split; [|split; [exact D|split; [exact E|exact N]]]]]].
   - intros r n H. destruct (C1 (r, n) H) as [Hg [Ho'|(d & Ed & Hm)]]; (split; [exact Hg|]).
     + now left.
     + right. injection Ed as -> ->. split; [reflexivity|assumption].
@@ -1531,3 +2235,273 @@ Proof.
   rewrite (delete_absent_state succ subject manifest st x ord c Hx). cbn [blobs gnodes idx].
   split; [now apply removeb_absent|split; reflexivity].
 Qed.
+
+(* ---- GC cancelled in the sweep, resumed, repeated ---- *)
+Lemma gc_cancel_final : forall succ subject manifest,
+  acyclic succ -> subject_listed succ subject ->
+  forall kl ords order k st, same_elements ords (candidates (idx st)) ->
+  exists st',
+    gc_cancel succ subject manifest cfg_fixed kl ords order k st = (st', ECanceled) /\
+    idx st' = idx (fst (gc succ subject manifest cfg_fixed kl ords st)) /\
+    gnodes st' = gnodes (fst (gc succ subject manifest cfg_fixed kl ords st)) /\
+    (forall x, In x (gnodes st') <-> Live succ subject manifest st x) /\
+    (forall x, In x (blobs st') <->
+               In x (blobs st) /\ (Live succ subject manifest st x \/ swept_blob x (firstn k order) = false)) /\
+    (forall s, In s (strays st') <->
+               In s (strays st) /\ (s_known s && s_valid s = false \/
+                                    swept_stray (s_id s) (firstn k order) = false)) /\
+    autogc st' = autogc st /\
+    (forall x, Live succ subject manifest st' x <-> Live succ subject manifest st x).
+Proof. intros succ subject manifest H1 H2. exact (gc_cancel_spec succ subject manifest H1 H2). Qed.
+
+Lemma gc_resume_final : forall succ subject manifest,
+  acyclic succ -> subject_listed succ subject ->
+  forall kl ords order k st ords2,
+  same_elements ords (candidates (idx st)) ->
+  let sc := fst (gc_cancel succ subject manifest cfg_fixed kl ords order k st) in
+  same_elements ords2 (candidates (idx sc)) ->
+  let s1 := fst (gc succ subject manifest cfg_fixed kl ords st) in
+  let s2 := fst (gc succ subject manifest cfg_fixed kl ords2 sc) in
+  snd (gc succ subject manifest cfg_fixed kl ords2 sc) = Ok /\
+  (forall x, In x (blobs s2) <-> In x (blobs s1)) /\
+  (forall x, In x (gnodes s2) <-> In x (gnodes s1)) /\
+  (forall t n, In (RTag t, n) (idx s2) <-> In (RTag t, n) (idx s1)).
+Proof.
+  intros succ subject manifest H1 H2 kl ords order k st ords2 Ho sc Ho2 s1 s2.
+  destruct (gc_cancel_spec succ subject manifest H1 H2 kl ords order k st Ho)
+    as (sc' & Ec & _ & _ & _ & Hb & _ & _ & HLc).
+  assert (Esc : sc = sc') by (unfold sc; now rewrite Ec). subst sc'.
+  destruct (gc_exact succ subject manifest H1 H2 kl ords st Ho) as (t1 & E1 & G1 & B1 & T1 & _).
+  destruct (gc_exact succ subject manifest H1 H2 kl ords2 sc Ho2) as (t2 & E2 & G2 & B2 & T2 & _).
+  assert (Es1 : s1 = t1) by (unfold s1; now rewrite E1).
+  assert (Es2 : s2 = t2) by (unfold s2; now rewrite E2).
+  rewrite Es1, Es2. split; [now rewrite E2|]. split; [|split].
+  - intro x. rewrite B2, B1, Hb, HLc. tauto.
+  - intro x. rewrite G2, G1. apply HLc.
+  - intros t n. rewrite T2, T1.
+    destruct (gc_cancel_spec succ subject manifest H1 H2 kl ords order k st Ho)
+      as (sc'' & Ec' & Ei & _). assert (sc = sc'') by (unfold sc; now rewrite Ec'). subst sc''.
+    rewrite Ei, E1. cbn [fst]. apply T1.
+Qed.
+
+Lemma gc_idempotent_final : forall succ subject manifest,
+  acyclic succ -> subject_listed succ subject ->
+  forall kl ords st ords2,
+  same_elements ords (candidates (idx st)) ->
+  let s1 := fst (gc succ subject manifest cfg_fixed kl ords st) in
+  same_elements ords2 (candidates (idx s1)) ->
+  let s2 := fst (gc succ subject manifest cfg_fixed kl ords2 s1) in
+  (forall x, In x (blobs s2) <-> In x (blobs s1)) /\
+  (forall x, In x (gnodes s2) <-> In x (gnodes s1)) /\
+  (forall t n, In (RTag t, n) (idx s2) <-> In (RTag t, n) (idx s1)) /\
+  (forall s, In s (strays s2) <-> In s (strays s1)).
+Proof.
+  intros succ subject manifest H1 H2 kl ords st ords2 Ho s1 Ho2 s2.
+  pose proof (gc_live_same succ subject manifest H1 H2 kl ords st Ho) as HL. fold s1 in HL.
+  destruct (gc_exact succ subject manifest H1 H2 kl ords st Ho) as (t1 & E1 & G1 & B1 & T1 & S1 & _).
+  destruct (gc_exact succ subject manifest H1 H2 kl ords2 s1 Ho2) as (t2 & E2 & G2 & B2 & T2 & S2 & _).
+  assert (Es1 : s1 = t1) by (unfold s1; now rewrite E1).
+  assert (Es2 : s2 = t2) by (unfold s2; now rewrite E2).
+  rewrite Es2. split; [|split; [|split]].
+  - intro x. rewrite B2, HL. rewrite Es1, B1. tauto.
+  - intro x. rewrite G2, HL. rewrite Es1, G1. tauto.
+  - intros t n. rewrite T2. tauto.
+  - intro s. rewrite S2. rewrite Es1, S1. tauto.
+Qed.
+
+(* ---- persistence ---- *)
+Definition prun_w (ops : list pop) : pstate :=
+  fold_left (fun p o => fst (pstep succ_w subject_w manifest_w cfg_fixed true p o)) ops pinit.
+
+(* AutoSaveIndex off and no SaveIndex: the tag and the manifest are lost by a restart followed
+   by GC ("unsaved index will be lost"); with AutoSaveIndex on they survive *)
+Lemma unsaved_index_lost :
+  let ops := [PO (OPush 0); PO (OPush 1); PO (OTag 1 0); PO OReopen; PO OGC] in
+  blobs (mem (prun_w (PAutoSave false :: ops))) = [] /\
+  lookup (RTag 0) (idx (mem (prun_w (PAutoSave false :: ops)))) = None /\
+  blobs (mem (prun_w ops)) = [1; 0] /\
+  lookup (RTag 0) (idx (mem (prun_w ops))) = Some 1 /\
+  blobs (mem (prun_w (PAutoSave false :: [PO (OPush 0); PO (OPush 1); PO (OTag 1 0); PSave; PO OReopen; PO OGC]))) = [1; 0].
+Proof. vm_compute. repeat split. Qed.
+
+Lemma index_json_current_final : forall succ subject manifest,
+  acyclic succ -> subject_listed succ subject ->
+  forall kl ops, Forall (fun o => o <> PAutoSave false) ops ->
+  let p := fold_left (fun p o => fst (pstep succ subject manifest cfg_fixed kl p o)) ops pinit in
+  (forall e, In e (disk p) <-> In e (save_form (idx (mem p)))) /\
+  refs_ok (idx (mem p)) /\ autosave p = true.
+Proof.
+  intros succ subject manifest H1 H2 kl ops Hf p.
+  destruct (prun_ok succ subject manifest H1 H2 kl ops Hf) as (Hr & Hs & Ha). fold p in Hr, Hs, Ha.
+  split; [exact Hs|split; assumption].
+Qed.
+
+Lemma index_json_step_final : forall succ subject manifest,
+  acyclic succ -> subject_listed succ subject ->
+  forall kl p o, pstate_ok p -> o <> PAutoSave false ->
+  pstate_ok (fst (pstep succ subject manifest cfg_fixed kl p o)).
+Proof. intros succ subject manifest H1 H2. exact (pstep_ok succ subject manifest H1 H2). Qed.
+
+Lemma save_index_final : forall succ subject manifest kl p,
+  let p' := fst (pstep succ subject manifest cfg_fixed kl p PSave) in
+  disk p' = save_form (idx (mem p)) /\ mem p' = mem p.
+Proof. intros. split; reflexivity. Qed.
+
+Lemma load_save_final : forall ix e, refs_ok ix ->
+  (In e (load_form (save_form ix)) <-> In e ix /\ nonstale e = true).
+Proof. intros ix e H. exact (load_save (fun _ => true) ix e H). Qed.
+
+Lemma reload_is_reopen_final : forall succ subject manifest,
+  acyclic succ -> subject_listed succ subject ->
+  forall kl p, pstate_ok p ->
+  let a := mem (fst (pstep succ subject manifest cfg_fixed kl p (PO OReopen))) in
+  let b := fst (step succ subject manifest cfg_fixed kl (mem p) OReopen) in
+  blobs a = blobs b /\ (forall e, In e (idx a) <-> In e (idx b)) /\
+  (forall x, In x (gnodes a) <-> In x (gnodes b)) /\
+  strays a = strays b /\ autogc a = autogc b.
+Proof. intros succ subject manifest _ _ kl p Hp. apply reload_is_reopen. exact Hp. Qed.
+
+Lemma effect_order_final :
+  gc_saves_before_sweep = true /\ gc_tests_ctx_before_remove = true /\ delete_saves_before_unlink = true.
+Proof. split; [exact gc_saves_before_sweep_ok|split; [exact gc_tests_ctx_before_remove_ok|exact delete_saves_before_unlink_ok]]. Qed.
+
+(* ---- consequences stated end to end ---- *)
+
+(* the outcome of Delete and of GC does not depend on Go's map iteration orders *)
+Lemma order_independent_final : forall succ subject manifest,
+  acyclic succ -> subject_listed succ subject ->
+  (forall st x, wf st -> autogc st = true -> In x (blobs st) ->
+     forall o1 o2, reorders o1 -> reorders o2 ->
+     let a := fst (delete succ subject manifest cfg_fixed o1 st x) in
+     let b := fst (delete succ subject manifest cfg_fixed o2 st x) in
+     (forall y, In y (blobs a) <-> In y (blobs b)) /\ (forall y, In y (gnodes a) <-> In y (gnodes b)) /\
+     (forall t n, In (RTag t, n) (idx a) <-> In (RTag t, n) (idx b))) /\
+  (forall kl st o1 o2, same_elements o1 (candidates (idx st)) -> same_elements o2 (candidates (idx st)) ->
+     let a := fst (gc succ subject manifest cfg_fixed kl o1 st) in
+     let b := fst (gc succ subject manifest cfg_fixed kl o2 st) in
+     (forall y, In y (blobs a) <-> In y (blobs b)) /\ (forall y, In y (gnodes a) <-> In y (gnodes b)) /\
+     (forall t n, In (RTag t, n) (idx a) <-> In (RTag t, n) (idx b))).
+Proof.
+  intros succ subject manifest H1 H2. split.
+  - intros st x Hw Ha Hx o1 o2 Ho1 Ho2 a b.
+    destruct (delete_exact_final succ subject manifest H1 H2 st x Hw Ha Hx o1 Ho1) as (s1 & E1 & B1 & G1 & _ & _ & T1 & _).
+    destruct (delete_exact_final succ subject manifest H1 H2 st x Hw Ha Hx o2 Ho2) as (s2 & E2 & B2 & G2 & _ & _ & T2 & _).
+    unfold a, b. rewrite E1, E2. cbn [fst]. split; [|split].
+    + intro y. rewrite B1, B2. tauto.
+    + intro y. rewrite G1, G2. tauto.
+    + intros t n. rewrite T1, T2. tauto.
+  - intros kl st o1 o2 Ho1 Ho2 a b.
+    destruct (gc_exact succ subject manifest H1 H2 kl o1 st Ho1) as (s1 & E1 & G1 & B1 & T1 & _).
+    destruct (gc_exact succ subject manifest H1 H2 kl o2 st Ho2) as (s2 & E2 & G2 & B2 & T2 & _).
+    unfold a, b. rewrite E1, E2. cbn [fst]. split; [|split].
+    + intro y. rewrite B1, B2. tauto.
+    + intro y. rewrite G1, G2. tauto.
+    + intros t n. rewrite T1, T2. tauto.
+Qed.
+
+(* a tagged descriptor that is stored stays stored and keeps its tags under every Delete of
+   another descriptor (AutoGC on or off, target stored or not, every iteration order), and
+   under every GC, complete or cancelled, together with everything reachable from it *)
+Lemma tagged_kept_final : forall succ subject manifest,
+  acyclic succ -> subject_listed succ subject ->
+  forall st n t, wf st -> In (RTag t, n) (idx st) -> In n (blobs st) ->
+  (forall x ord, reorders ord -> x <> n ->
+     let st' := fst (delete succ subject manifest cfg_fixed ord st x) in
+     In n (blobs st') /\ In (RTag t, n) (idx st')) /\
+  (forall kl ords order k, same_elements ords (candidates (idx st)) ->
+     let s1 := fst (gc succ subject manifest cfg_fixed kl ords st) in
+     let s2 := fst (gc_cancel succ subject manifest cfg_fixed kl ords order k st) in
+     forall y, Reach succ (blobs st) n y ->
+       In y (blobs s1) /\ In y (blobs s2) /\ In (RTag t, n) (idx s1) /\ In (RTag t, n) (idx s2)).
+Proof.
+  intros succ subject manifest H1 H2 st n t Hw Ht Hn. split.
+  - intros x ord Ho Hne st'. unfold st'.
+    destruct (in_dec Nat.eq_dec x (blobs st)) as [Hx|Hx].
+    + destruct (autogc st) eqn:Ha.
+      * destruct (delete_exact_final succ subject manifest H1 H2 st x Hw Ha Hx ord Ho)
+          as (s1 & E1 & B1 & _ & _ & _ & T1 & _).
+        rewrite E1. cbn [fst]. split; [|apply T1; split; [assumption|congruence]].
+        apply B1. split; [assumption|]. intro HG.
+        pose proof (gone_untagged succ subject manifest st x n HG ltac:(congruence)) as Hf.
+        assert (is_tagged st n = true) by (apply is_tagged_spec; eauto). congruence.
+      * destruct (delete_plain succ subject manifest st x ord Ho Ha Hx) as (s1 & E1 & B1 & _ & I1 & _).
+        rewrite E1. cbn [fst]. rewrite B1, I1. split.
+        -- apply removeb_In. split; [assumption|congruence].
+        -- apply del_idx_In. left. split; [assumption|cbn; congruence].
+    + rewrite (delete_absent_state succ subject manifest st x ord cfg_fixed Hx). cbn [blobs idx]. split.
+      * rewrite removeb_absent; assumption.
+      * apply del_idx_In. left. split; [assumption|cbn; congruence].
+  - intros kl ords order k Ho s1 s2 y Hy.
+    assert (HL : Live succ subject manifest st y) by (eapply L_tag; eauto).
+    destruct (gc_exact succ subject manifest H1 H2 kl ords st Ho) as (a & E1 & _ & B1 & T1 & _).
+    destruct (gc_cancel_spec succ subject manifest H1 H2 kl ords order k st Ho) as (c & E2 & Ei & _ & _ & B2 & _).
+    unfold s1, s2. rewrite E1, E2. cbn [fst].
+    assert (Hyb : In y (blobs st)) by (eapply Reach_in; eauto).
+    split; [apply B1; tauto|]. split; [apply B2; tauto|]. split; [now apply T1|].
+    rewrite Ei, E1. cbn [fst]. now apply T1.
+Qed.
+
+Lemma media_type_tables_final :
+  subject_tables_agree = true /\
+  map kind_has_subject [0; 1; 2; 3; 4; 5] = [false; true; false; true; false; true] /\
+  map is_manifest_kind [0; 1; 2; 3; 4; 5] = [false; true; true; true; true; true].
+Proof. vm_compute. repeat split. Qed.
+
+Lemma phistories_final : forall succ subject manifest,
+  acyclic succ -> subject_listed succ subject ->
+  forall kl ops, Forall (fun o => forall n, o <> PDeleteAlt n) ops ->
+  let p := fold_left (fun p o => fst (pstep succ subject manifest cfg_fixed kl p o)) ops pinit in
+  wf (mem p) /\ (forall n, is_tagged (mem p) n = true <-> exists t, In (RTag t, n) (idx (mem p))).
+Proof.
+  intros succ subject manifest H1 H2 kl ops Hf p.
+  destruct (prun_inv succ subject manifest H1 H2 kl ops Hf) as [Hw Hn]. fold p in Hw, Hn.
+  split; [exact Hw|]. intro n. now apply no_stale_tagged.
+Qed.
+
+Lemma gc_digest_refs_final : forall succ subject manifest,
+  acyclic succ -> subject_listed succ subject ->
+  forall ords st, same_elements ords (candidates (idx st)) ->
+  let st' := fst (gc succ subject manifest cfg_fixed true ords st) in
+  forall d r, In (RDig d, r) (idx st') <->
+    d = r /\ ((exists t, In (RTag t, r) (idx st)) \/
+              ((exists d', In (RDig d', r) (idx st)) /\
+               (Live succ subject manifest st r \/
+                (~ In r (blobs st) /\ manifest r = false /\
+                 exists p, Live succ subject manifest st p /\ In r (succ p))))).
+Proof.
+  intros succ subject manifest H1 H2 ords st Ho st'. unfold st', gc.
+  destruct (gc_index_digs succ subject manifest H1 H2 st ords Ho) as (ix' & g & E & H).
+  rewrite E. cbn [fst idx]. exact H.
+Qed.
+
+(* non-trivial instances of the new hypotheses / operations *)
+Definition cancel_pre := [PO (OPush 0); PO (OPush 1); PO (OPush 2); PO (OPush 5); PO (OPush 7); PO (OTag 1 0)].
+Definition cancel_order := [SBlob 5; SBlob 0; SBlob 7; SBlob 2; SBlob 1].
+Lemma example_cancel_resume :
+  (* 2 is a referrer of the tagged 1 (kept); 5 and its referrer 7 are garbage *)
+  blobs (mem (prun_w (cancel_pre ++ [PGCCancel false cancel_order 1]))) = [7; 2; 1; 0] /\
+  snd (pstep succ_w subject_w manifest_w cfg_fixed true (prun_w cancel_pre) (PGCCancel false cancel_order 1)) = ECanceled /\
+  blobs (mem (prun_w (cancel_pre ++ [PGCCancel false cancel_order 3]))) = [2; 1; 0] /\
+  blobs (mem (prun_w (cancel_pre ++ [PGCCancel false cancel_order 1; PO OGC]))) = [2; 1; 0] /\
+  blobs (mem (prun_w (cancel_pre ++ [PO OGC]))) = [2; 1; 0] /\
+  disk (prun_w (cancel_pre ++ [PGCCancel false cancel_order 1])) = disk (prun_w (cancel_pre ++ [PO OGC])).
+Proof. vm_compute. repeat split. Qed.
+
+Lemma example_pstate_ok : pstate_ok (prun_w (cancel_pre ++ [PGCCancel false cancel_order 1])).
+Proof.
+  apply (prun_ok succ_w subject_w manifest_w succ_w_lt subj_w_succ true).
+  repeat constructor; discriminate.
+Qed.
+
+Lemma lock_discipline_final : lock_discipline = true.
+Proof. vm_compute. reflexivity. Qed.
+
+(* Delete with the blob descriptor Resolve(<digest>) returns: the file and the references go, the
+   graph keeps a node without content (wf is lost until GC or a reload); GC repairs it *)
+Lemma delete_alt_stale_node :
+  let p := prun_w [PO (OPush 0); PO (OPush 1); PDeleteAlt 0] in
+  blobs (mem p) = [1] /\ In 0 (gnodes (mem p)) /\ ~ In 0 (blobs (mem p)) /\
+  gnodes (mem (prun_w [PO (OPush 0); PO (OPush 1); PO (OTag 1 0); PDeleteAlt 0; PO OGC])) = [1] /\
+  snd (pstep succ_w subject_w manifest_w cfg_fixed true (prun_w [PO (OPush 0); PO (OPush 1)]) (PDeleteAlt 0)) = Ok /\
+  snd (pstep succ_w subject_w manifest_w cfg_fixed true p (PDeleteAlt 0)) = ENotFound.
+Proof. vm_compute. intuition discriminate. Qed.
